@@ -42,13 +42,13 @@ import (
 
 type detRand struct{ r *rand.Rand }
 
-func (d detRand) Float64() float64                  { return d.r.Float64() }
-func (d detRand) Int64N(n int64) int64              { return d.r.Int63n(n) }
-func (d detRand) IntN(n int) int                    { return d.r.Intn(n) }
-func (d detRand) Read(p []byte) (int, error)        { return d.r.Read(p) }
+func (d detRand) Float64() float64                   { return d.r.Float64() }
+func (d detRand) Int64N(n int64) int64               { return d.r.Int63n(n) }
+func (d detRand) IntN(n int) int                     { return d.r.Intn(n) }
+func (d detRand) Read(p []byte) (int, error)         { return d.r.Read(p) }
 func (d detRand) Shuffle(n int, swap func(i, j int)) { d.r.Shuffle(n, swap) }
-func (d detRand) Uint32() uint32                    { return d.r.Uint32() }
-func (d detRand) Uint64() uint64                    { return d.r.Uint64() }
+func (d detRand) Uint32() uint32                     { return d.r.Uint32() }
+func (d detRand) Uint64() uint64                     { return d.r.Uint64() }
 
 // ---------------------------------------------------------------------
 // Fake clock. One tick is one second; the lease is leaseTicks and a half
@@ -297,13 +297,13 @@ type heldIO struct {
 }
 
 type env struct {
-	tr      *common.Trace
-	prog    nfsv4.Nfs4Program
-	pool    *nfsserver.OpenedFilesPool
-	halloc  *virtual.NFSStatefulHandleAllocator
-	root    virtual.PrepopulatedDirectory
-	clk     *fakeClock
-	rootFH  []byte
+	tr     *common.Trace
+	prog   nfsv4.Nfs4Program
+	pool   *nfsserver.OpenedFilesPool
+	halloc *virtual.NFSStatefulHandleAllocator
+	root   virtual.PrepopulatedDirectory
+	clk    *fakeClock
+	rootFH []byte
 
 	mu     sync.Mutex
 	leaves []*leafStats
